@@ -492,6 +492,7 @@ def write_blocks_to_disk(blocks: List[bytes], datadir: str):
             filename = f"blk{str(new_blk_no).zfill(5)}.dat"
             filepath = os.path.join(datadir, filename)
             dat_file = open(filepath, "ab")
+            dat_file.write(blk_data)
     dat_file.close()
 
 
